@@ -305,6 +305,55 @@ theorem pending_write_pred :
        unfold MicroHttp.pendingWrite
        cases c.respBuf <;> cases c.respQ <;> simp)
 
+
+/-! ### C08 / C09 / C07 — the two small transitions of `ClientConnection` (tools/extract.py:
+`translate_client_write`, `translate_client_enqueue`)
+
+`ClientConnection::write` is a `match` on the outcome of `try_write` whose arms assign `self.state`; translated,
+it is a function (state before, outcome, pending output afterwards) ↦ state after, and `client_write_state` proves
+the model's `Client.write` computes exactly that state for EVERY connection and EVERY stream behaviour — this is
+where "a stale OUT registration is harmless" (F2/F4, C09.stale_out_is_harmless) and "a failed write closes" live.
+`ClientConnection::enqueue_response` — enqueue unless closed, then `checked_sub(1)` or Underflow — is translated with
+the order of its two statements; `client_enqueue` proves `respond` does exactly that to the connection it finds. -/
+
+set_option linter.unusedSimpArgs false in
+theorem client_write_state :
+    Extracted.clientWriteState = none ∨
+    ∃ f, Extracted.clientWriteState = some f ∧ ∀ (c : Client) (w : SinkStep),
+      (c.write w).1.state = f c.state (tryWrite c.conn w).2.1 (pendingWrite (tryWrite c.conn w).1) ∧
+      (c.write w).1.conn = (tryWrite c.conn w).1 ∧ (c.write w).1.inflight = c.inflight := by
+  first
+    | exact Or.inl rfl
+    | (right
+       refine ⟨_, rfl, ?_⟩
+       intro c w
+       unfold Client.write
+       rcases h : tryWrite c.conn w with ⟨conn', out, bytes, b⟩
+       cases out <;> cases hs : c.state <;> cases hp : pendingWrite conn' <;> simp [hs, hp])
+
+/-- what `respond` does to the connection it finds, after arming it for output -/
+theorem client_enqueue :
+    Extracted.clientEnqueue = none ∨
+    ∃ f, Extracted.clientEnqueue = some f ∧ ∀ (s : Srv) (tok : Token) (r : Response) (c : Client),
+      findClient s.conns tok.fd = some c →
+      let st1 := if c.state = .awaitingIn then CState.awaitingOut else c.state
+      let conn2 := if (f st1 c.inflight).1 then enqueue c.conn r else c.conn
+      ((respond s tok r).2.1 = .underflow ↔ (f st1 c.inflight).2 = none) ∧
+      ∃ c', (respond s tok r).1.conns = replaceClient s.conns c' ∧ c'.conn = conn2 ∧ c'.state = st1 ∧
+        c'.inflight = ((f st1 c.inflight).2).getD c.inflight := by
+  first
+    | exact Or.inl rfl
+    | (right
+       refine ⟨_, rfl, ?_⟩
+       intro s tok r c hc
+       unfold respond
+       simp only [hc]
+       cases hs : c.state <;> cases hn : c.inflight <;> simp [hs, hn] <;>
+         first
+           | exact ⟨_, rfl, rfl, rfl, rfl⟩
+           | exact ⟨c, rfl, rfl, hs, hn⟩
+           | exact ⟨_, rfl, by simp [hs], by simp [hs], by simp [hn]⟩)
+
 /-! Non-vacuity is reported per run: `check` records which items the translator found (`extracted` in the evidence);
     on the unchanged tree all of them are. -/
 
